@@ -355,7 +355,7 @@ def write_replay(prop, rep, ob, repo, seed, tier):
     model = ob.get("model")
     cm = rep.get("contract_module")
     if cm and not rep["target"].startswith("lemma:"):
-        inputs = {k: v for k, v in (model or {}).items() if k != "__ghost__"}
+        inputs = {k: v for k, v in (model or {}).items() if not k.startswith("__")}
         ghost = (model or {}).get("__ghost__")
         req = {"mode": "replay", "repo": repo, "contract_module": cm, "target": rep["target"], "inputs": inputs,
                "ghost": ghost, "search_budget_s": 10 if tier == "quick" else 60, "seed": seed}
